@@ -50,7 +50,14 @@ def step(st, documented, doc, name, args, flags=DEFAULT_FLAGS, trigger=":keyword
                 p.params = p.params + list(args[2:])
             p.is_macro = kind == "macro"
             st.pending = None
-            st.defs.append(None)
+            if documented:
+                # the implementing definition carries a doccomment of its own: it is a documented definition as well -- an entry of its
+                # own, and ONE frame (its own) for the cmake_parse_arguments calls of its body
+                e = E(kind, args[0], doc, params=[strip(kind, a) for a in args[1:]], kwargs=(trigger in doc))
+                st.entries.append(e)
+                st.defs.append(e)
+            else:
+                st.defs.append(None)
         elif shown:
             e = E(kind, args[0], doc, params=[strip(kind, a) for a in args[1:]], kwargs=(trigger in doc))
             st.entries.append(e)
